@@ -281,8 +281,9 @@ def rule_r7_adapters(text, types, applied):
     names = ('any', 'find', 'position')
     while True:
         st = _lex(text)
-        idx = [i for i, t in enumerate(st) if t.kind == 'ident' and t.text in names and i > 0 and st[i - 1].text == '.'
-               and st[i + 1].text == '(' and st[i + 2].text == '|']
+        idx = [i for i, t in enumerate(st) if t.kind == 'ident' and i > 0 and st[i - 1].text == '.' and st[i + 1].text == '(' and (
+               (t.text in names and st[i + 2].text == '|')
+               or (t.text == 'last' and st[i + 2].text == ')' and st[i - 2].text == ')'))]
         if not idx:
             return text
         k = len(idx)
@@ -291,6 +292,15 @@ def rule_r7_adapters(text, types, applied):
         j = _receiver_start(st, i, 'R7')
         recv = text[st[j].start:st[i - 1].start].rstrip()
         close = match_forward(st, i + 1)
+        if kind == 'last':
+            it, x, r = f'__itA{k}', f'__xA{k}', f'__rA{k}'
+            ty = types.get(k)
+            tys = f': {ty}' if ty else ''
+            new = (f'({{ let mut {it} = {recv}; let mut {r}{tys} = None;\n'
+                   f'loop {{ match {it}.next() {{ Some({x}) => {{ {r} = Some({x}); }}\n None => break, }} }}\n{r} }})')
+            text = text[:st[j].start] + new + text[st[close].end:]
+            applied.append(f'R7(last#{k})')
+            continue
         c = i + 2
         c2 = c + 1
         d = 0
